@@ -383,6 +383,9 @@ def F13b():
     streams = PROPERTY.PACK_INFO + num(0) + num(100_000_000) + PROPERTY.END + PROPERTY.END
     hdr = PROPERTY.HEADER + PROPERTY.MAIN_STREAMS_INFO + streams + PROPERTY.END
     out = _rss_probe(seal(hdr), secs=120)
+    parts = out.split()
+    if len(parts) == 3 and parts[0] == "Bad7zFile" and float(parts[1]) < 5 and int(parts[2]) < 200:
+        return None  # refused at once
     return f"{len(seal(hdr))}-byte archive declaring 100,000,000 pack streams without a Size property: {out} (status, seconds, peak RSS MiB)"
 
 @case
